@@ -1542,9 +1542,12 @@ const BEAT_DONE: u64 = u64::MAX;
 /// produce a false alarm
 const HANG_SECS: u64 = 30;
 fn start_watchdog(rerun: Arc<dyn Fn(u64) + Send + Sync>, on_hang: Box<dyn Fn(u64) + Send>) {
+    // measured in CPU time burnt by the process (crate::report::cpu_ms), not wall-clock: a starved or stopped
+    // shard accumulates none, a call that does not return accumulates it at full rate
+    let cpu = crate::report::cpu_ms;
     std::thread::spawn(move || {
         let mut last = BEAT.load(Ordering::SeqCst);
-        let mut since = Instant::now();
+        let mut since = cpu();
         loop {
             std::thread::sleep(Duration::from_millis(250));
             let b = BEAT.load(Ordering::SeqCst);
@@ -1553,10 +1556,10 @@ fn start_watchdog(rerun: Arc<dyn Fn(u64) + Send + Sync>, on_hang: Box<dyn Fn(u64
             }
             if b != last {
                 last = b;
-                since = Instant::now();
+                since = cpu();
                 continue;
             }
-            if b == 0 || since.elapsed().as_secs() < HANG_SECS {
+            if b == 0 || cpu().saturating_sub(since) < HANG_SECS * 1000 {
                 continue;
             }
             let k = b - 1;
@@ -1566,8 +1569,18 @@ fn start_watchdog(rerun: Arc<dyn Fn(u64) + Send + Sync>, on_hang: Box<dyn Fn(u64
                 rr(k);
                 let _ = tx.send(());
             });
-            if rx.recv_timeout(Duration::from_secs(HANG_SECS)).is_ok() || BEAT.load(Ordering::SeqCst) != b {
-                since = Instant::now(); // the re-execution returned (or the main thread moved on): no hang
+            // the original execution and the re-execution both burn CPU now: wait for 2 x HANG_SECS of it
+            let c0 = cpu();
+            let returned = loop {
+                if rx.recv_timeout(Duration::from_millis(250)).is_ok() || BEAT.load(Ordering::SeqCst) != b {
+                    break true;
+                }
+                if cpu().saturating_sub(c0) >= 2 * HANG_SECS * 1000 {
+                    break false;
+                }
+            };
+            if returned {
+                since = cpu(); // the re-execution returned (or the main thread moved on): no hang
                 continue;
             }
             on_hang(k);
@@ -1596,7 +1609,7 @@ pub fn run(ctx: &Ctx, sh: &mut Shard) {
                 Some((g, lat, st)) => (
                     g.kind(),
                     json!({"property": "C05", "check": "hang", "g": g.json(), "lat": lat.json(), "stratum": st, "seed": seed, "shard": shard, "k": k,
-                           "expected": "every Area / Winding / Orient call on this input returns", "got": format!("no return within {HANG_SECS} s, twice (original execution and one re-execution)"),
+                           "expected": "every Area / Winding / Orient call on this input returns", "got": format!("no return within {HANG_SECS} s of CPU time, twice (original execution and one re-execution)"),
                            "geo_f64": format!("{:?}", g.to_geo(&lat))}),
                 ),
                 None => ("?", json!({"property": "C05", "check": "hang", "seed": seed, "shard": shard, "k": k, "expected": "case returns", "got": "hang"})),
